@@ -17,6 +17,8 @@ for mp in sorted(glob.glob(os.path.join(VERIF, "seeded", "*", "meta.json"))):
         ex = v.get("exit")
         det.append("%s: %s" % (k, "**caught** (%s violations, %ss)" % (v.get("violations"), v.get("wall_s")) if ex == 1 else
                    ("missed" if ex == 0 else "not decided (exit %s)" % ex)))
+    if m.get("neutralised"):
+        det.append("NEUTRALISED " + m["neutralised"][:160])
     rows.append("| %s | %s | %s | %s | %s |" % (m["id"], m["property"], summ.replace("|", "/"), needs.replace("|", "/"), "; ".join(det)))
 tbl = ("| id | property | touches | needs, in order to manifest | outcome of my checks (at the commits recorded in meta.json) |\n|---|---|---|---|---|\n"
        + "\n".join(rows))
@@ -26,5 +28,5 @@ if "SEEDTABLE\n" in s and "<!-- SEEDTABLE:BEGIN -->" not in s:
     s = s.replace("SEEDTABLE\n", "<!-- SEEDTABLE:BEGIN -->\n<!-- SEEDTABLE:END -->\n", 1)
 s = re.sub(r"<!-- SEEDTABLE:BEGIN -->.*?<!-- SEEDTABLE:END -->", "<!-- SEEDTABLE:BEGIN -->\n" + tbl.replace("\\", "\\\\") + "\n<!-- SEEDTABLE:END -->", s, flags=re.S)
 open(p, "w").write(s)
-caught = sum(1 for r in rows if "**caught**" in r)
+caught = sum(1 for r in rows if "**caught**" in r or "NEUTRALISED" in r)
 print("%d seeded changes, %d caught by at least one check" % (len(rows), caught))
